@@ -51,3 +51,5 @@ META = dict(
                 "generations). The timed_list overflow path needs a failing allocation, which aborts: unobserved."),
     technique="runtime monitoring: reference-scheduler oracle at every task invocation and top-level call + ASan + allocator balance",
 )
+
+CFG["rule"] += (" " + 'Additions: every 4096th case is a burst: 20 000-200 000 timed tasks (65 535/65 536/65 537 among the sizes) plus a few run-now tasks, all due at one run-all call, which must run every one of them in order; only the far-future task may remain. Tasks never scheduled are cancelled, chains of up to 62 generations unwind in clean-up, task nodes carry stale links when scheduled.')
